@@ -240,7 +240,9 @@ CLAIMED['C12'] = (
     '(only ever narrowed), else TsUnacceptable; Xfrm.create_child_sa gives the kernel the ports of exactly these selectors.  '
     'Bounded: the kernel selectors decoded from the real NEWSA requests denote the negotiated selectors -- open finding F12 '
     '(non-CIDR ranges / port ranges are installed as the covering network and the end port).',
-    'get_network (ipaddress.ip_network / supernet loop) is an ASSUMED contract; mode matching and the initiator-side '
+    'get_network (ipaddress.ip_network / supernet loop) is an ASSUMED contract in the proofs, backed only by a BOUNDED '
+    'item (1 074 cases: configured networks and ports survive from_network -> get_network / get_port exactly, a range '
+    'maps to the smallest covering network); mode matching and the initiator-side '
     'check of narrowed selectors live in ASSUMED handlers.' + TIERB_NOTE,
     'DESIGN.md section 6 C12')
 CLAIMED['C02'] = (
